@@ -13,6 +13,7 @@ type FaultCfg struct {
 	TxReorder    float64 `json:"tx_reorder"`
 	StaleSeq     float64 `json:"stale_seq"`
 	Restart      float64 `json:"restart"`       // per block, replica N1
+	LongGap      bool    `json:"long_gap,omitempty"` // neglect: clock jumps of 200 / 400 days among the jumps, and no liquidation bots for the whole run
 	GasStarve    float64 `json:"gas_starve"`    // per tx: draw a gas limit that may run out mid-handler
 	OracleOutage float64 `json:"oracle_outage"` // per block: start an outage
 	OutageLen    int     `json:"outage_len"`    // max blocks of an outage
@@ -52,6 +53,10 @@ func (c *SwarmConfig) rate(name string) float64 { return c.Rate[name] }
 func (c *SwarmConfig) drawDt(r *rand.Rand, s *Sim) int64 {
 	if c.Faults.ClockJump > 0 && r.Float64() < c.Faults.ClockJump {
 		s.Stats.Inc("fault/clock_jump", 1)
+		if c.Faults.LongGap && r.IntN(3) == 0 {
+			s.Stats.Inc("fault/clock_jump_of_months", 1)
+			return int64(200+200*r.IntN(2)) * 86_400_000
+		}
 		switch r.IntN(8) {
 		case 0:
 			return 1 // two blocks in the same unix second
